@@ -11,6 +11,7 @@ type scanCall struct {
 	Site     *SQLSite    // the Query/QueryRow site the row comes from (nil if unknown)
 	Dests    []ssa.Value // destination addresses, in column order (nil if dynamic)
 	RawDests []ssa.Value // the same as passed to Scan (conversions such as (*sql.RawBytes)(&x) not stripped)
+	Row      ssa.Value   // the *sql.Row / *sql.Rows value that is scanned
 }
 
 func (m *Model) siteOfCallValue(v ssa.Value) *SQLSite {
@@ -89,7 +90,7 @@ func (m *Model) scanCalls() []*scanCall {
 				if rowV == nil {
 					continue
 				}
-				sc := &scanCall{Call: call, Fn: fn}
+				sc := &scanCall{Call: call, Fn: fn, Row: rowV}
 				sc.Site = m.rowSource(rowV, topFrame(fn))
 				if vals, dyn := varargValues(argsV); !dyn {
 					for _, v := range vals {
